@@ -81,7 +81,7 @@ theorem C08_mark_ctor (P : Proc) (n : Nat) (e r x : Err) :
 
 /-- Non-vacuity / regression of the repaired defect: the two witnesses on which the
     pinned tree panicked resp. reported a false match are now decided as different. -/
-def uW : UserTy := ⟨b!"x/*x.W", b!"*x.W", 1, []⟩
+def uW : UserTy := ⟨b!"x/*x.W", b!"*x.W", 1, [], 1⟩
 def cexWrapped : Err := .wrap [1] (.user uW (b!"m")) (.leaf [2] (.errorString (b!"z")))
 def cexLeaf : Err := .leaf [3] (.user uW (b!"m"))
 
